@@ -219,6 +219,12 @@ def run(index, rep, tier):
                               "%s references `treecompare.%s`, which does not exist in dendropy.calculate.treecompare: the call raises AttributeError" % (f2.qualname, n.attr))
         rep.floor("R04.4", "references to treecompare.<name>", 5, nref)
 
+    # ---- R04.7
+    with rep.section("R04.7"):
+        rep.rule("R04.7", "the edge maps the weighted kernels read through are dropped by every re-encode (shared with R01.5): results reflect the current structure, never edges cached before a modification")
+        from . import c01
+        c01.edge_map_reset_rule(index, rep, "R04.7")
+
     # ---- R04.6
     with rep.section("R04.6"):
         rep.rule("R04.6", "distance kernels never mutate a tree's cached bipartition data: no store/mutator call through a name aliased (without copying) to a tree parameter's encoding or edge maps")
